@@ -1,6 +1,7 @@
 import Cdecao.Engine.Core
 import Cdecao.Engine.Term
 import Cdecao.Engine.Final
+import Cdecao.Engine.Account
 /-! # C04 — the parallel search always terminates and accounts for every subproblem once -/
 namespace Props
 open Eng3
@@ -72,5 +73,144 @@ theorem C04_done_absorbing {c c' : Cfg ν σ} {ev : Ev} (hs : step? c ev = some 
 theorem C04_join {c c' : Cfg ν σ} (hs : Steps c c') (h : AllDone c) :
     outcome c.pcs = some false ∧ outcome c'.pcs = some false :=
   ⟨(outcome_false_iff_allDone c).2 h, outcome_stable hs ((outcome_false_iff_allDone c).2 h)⟩
+
+/-! ### every generated subproblem is solved exactly once or bounded exactly once
+
+`Ghost` (Engine/Account.lean) is a history computed alongside the transition system: `gen` (the root,
+then every child in the order it is pushed), `solved` (results applied), `bounded` (popped and
+discarded by bounding), `failed` (solver panicked).  `ReachG` is reachability in the product of the
+transition system with `statsUpd` and `ghostUpd`. -/
+
+/-- the accounting invariant, in every reachable state, every `T`, every schedule: as multisets,
+    generated = solved + bounded + failed + in flight + queued -/
+theorem C04_exactly_once {root : ν} {top T : Nat} {c : Cfg ν σ} {st : Stats} {g : Ghost ν}
+    (hr : ReachG root top T (c, st, g)) :
+    List.Perm g.gen (g.solved ++ g.bounded ++ g.failed ++ flying c.pcs ++ pendNodes c.pending) :=
+  reachG_ainv hr
+
+/-- the invariant is inductive: one step of the product system preserves it -/
+theorem C04_exactly_once_step {c c' : Cfg ν σ} {g : Ghost ν} {ev : Ev} (h : AInv c g)
+    (hs : step? c ev = some c') : AInv c' (ghostUpd c g ev) :=
+  ainv_step h hs
+
+/-- the ghost layer does not restrict the system: every reachable configuration carries a history -/
+theorem C04_exactly_once_total {root : ν} {top T : Nat} {c : Cfg ν σ} (hr : Reach root top T c) :
+    ∃ st g, ReachG root top T (c, st, g) :=
+  reach_reachG hr
+
+/-- when all workers have returned normally (`T ≥ 1`): every generated subproblem has been popped
+    exactly once and then either solved once or discarded by bounding once — none twice, none lost,
+    none both; nobody panicked; and the statistics counters are the lengths of the ghost lists -/
+theorem C04_exactly_once_at_done {root : ν} {top T : Nat} {c : Cfg ν σ} {st : Stats} {g : Ghost ν}
+    (hT : 0 < T) (hr : ReachG root top T (c, st, g)) (hd : AllDone c) :
+    List.Perm g.gen (g.solved ++ g.bounded) ∧ g.failed = [] ∧
+    st.gen = g.gen.length ∧ st.executed = g.solved.length ∧ st.bound = g.bounded.length :=
+  account_at_done hT hr hd
+
+/-- with panics: when every worker has stopped, the generated subproblems are those solved, those
+    bounded, those whose solver panicked (one per dead worker) and those left in the queue -/
+theorem C04_exactly_once_at_finished {root : ν} {top T : Nat} {c : Cfg ν σ} {st : Stats}
+    {g : Ghost ν} (hr : ReachG root top T (c, st, g)) (hd : AllFinished c) :
+    List.Perm g.gen (g.solved ++ g.bounded ++ g.failed ++ pendNodes c.pending) ∧
+    g.failed.length = c.pcs.countP (fun pc => match pc with | .dead => true | _ => false) :=
+  account_at_finished hr hd
+
+/-- the counters of bab.rs are the lengths of the ghost lists, in every reachable state -/
+theorem C04_exactly_once_stats {root : ν} {top T : Nat} {c : Cfg ν σ} {st : Stats} {g : Ghost ν}
+    (hr : ReachG root top T (c, st, g)) :
+    st.executed = g.solved.length ∧ st.bound = g.bounded.length ∧ st.gen = g.gen.length ∧
+    st.panicked = g.failed.length :=
+  let h := ghost_stats hr
+  ⟨h.executed, h.bound, h.gen, h.panicked⟩
+
+/-- everything generated is a descendant of the root -/
+theorem C04_exactly_once_desc {root : ν} {top T : Nat} {c : Cfg ν σ} {st : Stats} {g : Ghost ν}
+    (hr : ReachG root top T (c, st, g)) : ∀ n ∈ g.gen, Desc n root :=
+  gen_desc hr
+
+/-- `solved` holds nodes with a verdict, `failed` nodes whose solver panics -/
+theorem C04_exactly_once_verdicts {root : ν} {top T : Nat} {c : Cfg ν σ} {st : Stats} {g : Ghost ν}
+    (hr : ReachG root top T (c, st, g)) :
+    (∀ n ∈ g.solved, isPanic (Solver.res n) = false) ∧ (∀ n ∈ g.failed, isPanic (Solver.res n) = true) :=
+  let h := reachG_gres hr
+  ⟨h.solved, h.failed⟩
+
+/-- "none twice": if the generated subproblems are pairwise distinct, so are the entries of
+    solved, bounded, failed, in flight and queued taken together -/
+theorem C04_exactly_once_nodup {root : ν} {top T : Nat} {c : Cfg ν σ} {st : Stats} {g : Ghost ν}
+    (hr : ReachG root top T (c, st, g)) (hn : g.gen.Nodup) :
+    (g.solved ++ g.bounded ++ g.failed ++ flying c.pcs ++ pendNodes c.pending).Nodup :=
+  account_nodup hr hn
+
+/-- with multiplicities: at the end each node occurs among the solved and bounded ones exactly as
+    often as it was generated -/
+theorem C04_exactly_once_count [BEq ν] {root : ν} {top T : Nat} {c : Cfg ν σ} {st : Stats}
+    {g : Ghost ν} (hT : 0 < T) (hr : ReachG root top T (c, st, g)) (hd : AllDone c) (n : ν) :
+    g.gen.count n = g.solved.count n + g.bounded.count n :=
+  account_count hT hr hd n
+
+/-! ### work bound over whole runs
+
+`Budget W` (`5 + Σ_{k ∈ pushed n} W k ≤ W n` for every `n`) says that the search tree is finite:
+`W` drops by at least 5 along every edge, the tree below `n` unfolded to any depth has at most
+`W n / 5` entries (`C04_run_bound_budget`), and at most `W root / 5` subproblems are ever generated
+(`C04_run_bound_gen`).  `Run c evs c'`: the event list `evs` drives `c` to `c'`; `work evs` counts
+the events that are not wake-ups, `wakeEvents evs` the `wake` events (`notify_one` or spurious). -/
+
+/-- what a budget means: no infinite branch, and at most `W n / 5` nodes below `n` -/
+theorem C04_run_bound_budget {W : ν → Nat} (hW : Budget W) :
+    WellFounded (fun k n : ν => k ∈ pushed n) ∧
+    (∀ d n, 5 * (subtree d n).length ≤ W n) ∧ (∀ m n : ν, Desc m n → ∃ d, m ∈ subtree d n) :=
+  ⟨budget_wf hW, budget_subtree hW, fun _ _ h => desc_subtree h⟩
+
+/-- at most `W root / 5` subproblems are generated -/
+theorem C04_run_bound_gen (W : ν → Nat) (hW : Budget W) {root : ν} {top T : Nat} {c : Cfg ν σ}
+    {st : Stats} {g : Ghost ν} (hr : ReachG root top T (c, st, g)) :
+    5 * g.gen.length ≤ W root ∧ 5 * st.gen ≤ W root :=
+  gen_le_budget W hW hr
+
+/-- `psi_step` summed over a run -/
+theorem C04_run_bound_psi (W : ν → Nat) (hW : Budget W) {c c' : Cfg ν σ} {evs : List Ev}
+    (h : Run c evs c') : work evs + Psi W c' ≤ Psi W c + 3 * wakesRun c evs :=
+  psi_run W hW h
+
+/-- the wake-ups the code causes itself: an `after`/`die` event that wakes anybody stops its own
+    thread for good and wakes fewer than `T` sleepers, so over a run of `T` threads at most
+    `T * T` sleepers are woken by `notify_all` -/
+theorem C04_run_bound_wakes {T : Nat} {c c' : Cfg ν σ} {evs : List Ev} (h : Run c evs c')
+    (hT : c.pcs.length = T) : wakesRun c evs ≤ T * T + wakeEvents evs :=
+  wakesRun_le h hT
+
+/-- work bound for a run of `T` threads from any configuration -/
+theorem C04_run_bound (W : ν → Nat) (hW : Budget W) {T : Nat} {c c' : Cfg ν σ} {evs : List Ev}
+    (h : Run c evs c') (hT : c.pcs.length = T) :
+    work evs + Psi W c' ≤ Psi W c + 3 * (T * T + wakeEvents evs) :=
+  run_bound W hW h hT
+
+/-- work bound from the start: with budget `W` and at most `s` wake events, a run of `T` threads
+    takes at most `W root + 3 * T + 3 * (T * T + s)` steps that are not wake-ups; the initial
+    potential is `Psi W (init root top T) = W root + 3 * T` -/
+theorem C04_run_bound_init (W : ν → Nat) (hW : Budget W) {root : ν} {top T s : Nat} {c : Cfg ν σ}
+    {evs : List Ev} (h : Run (init root top T) evs c) (hs : wakeEvents evs ≤ s) :
+    Psi W (init root top T : Cfg ν σ) = W root + 3 * T ∧
+    work evs ≤ W root + 3 * T + 3 * (T * T + s) ∧
+    evs.length ≤ W root + 3 * T + 3 * (T * T + s) + s :=
+  ⟨psi_init W root top T, run_bound_init W hW h hs, run_length_init W hW h hs⟩
+
+/-- runs with explicit events are exactly the reachable configurations -/
+theorem C04_run_bound_reach {root : ν} {top T : Nat} {c : Cfg ν σ} :
+    Reach root top T c ↔ ∃ evs, Run (init root top T) evs c :=
+  reach_iff_run
+
+#print axioms C04_exactly_once
+#print axioms C04_exactly_once_at_done
+#print axioms C04_exactly_once_at_finished
+#print axioms C04_exactly_once_stats
+#print axioms C04_exactly_once_desc
+#print axioms C04_exactly_once_nodup
+#print axioms C04_run_bound_budget
+#print axioms C04_run_bound_gen
+#print axioms C04_run_bound
+#print axioms C04_run_bound_init
 
 end Props
